@@ -83,6 +83,8 @@ PayloadClauses(f, c, tree, m, evs) ==
       files == { o \in common : ExpKind(X(o)) = "file" /\ o.kind = "file" }
       dirs  == { o \in common : ExpKind(X(o)) = "dir" /\ o.kind = "dir" }
       links == { o \in common : ExpKind(X(o)) = "link" /\ o.kind = "link" }
+      \* a ghost (rpm): no bytes, but the attributes it is declared with - mode 0644 unless one is given
+      ghosts == { o \in common : ExpKind(X(o)) = "ghost" /\ o.kind = "ghost" }
       hasOwner(o) == ~(f \in {"apk", "archlinux", "ipk"} /\ o.kind = "link")
       req ==
         (IF opaths # epaths THEN {"C01.payload_exact"} ELSE {})
@@ -96,6 +98,8 @@ PayloadClauses(f, c, tree, m, evs) ==
         \cup (IF \E o \in dirs : o.owner # X(o).owner THEN {"C01.dir_owner"} ELSE {})
         \cup (IF \E o \in dirs : o.group # X(o).group THEN {"C01.dir_group"} ELSE {})
         \cup (IF \E o \in links : o.link # X(o).src THEN {"C01.link_target"} ELSE {})
+        \cup (IF \E o \in ghosts : o.mode # (IF X(o).mode = 0 THEN 420 ELSE X(o).mode) THEN {"C01.ghost_mode"} ELSE {})
+        \cup (IF \E o \in ghosts : o.owner # X(o).owner \/ o.group # X(o).group THEN {"C01.ghost_owner"} ELSE {})
       doc ==
         (IF \E o \in dirs : X(o).mt # 0 /\ o.mt # X(o).mt THEN {"DOC.dir_mtime"} ELSE {})
         \cup (IF \E o \in links : hasOwner(o) /\ o.owner # X(o).owner THEN {"DOC.link_owner"} ELSE {})
